@@ -76,14 +76,21 @@ def mruleInScope (req : Request) (mr : MRule) : Bool :=
   if mr.g = .requestPrincipal then req.jwtOK && (mr.values ++ mr.notValues).all (rpValueOK · req)
   else (!mr.g.extended || mr.g.extInScope) && (mr.values ++ mr.notValues).all (prinValueOK mr.g)
 
-def ruleInScope (req : Request) (pns : Str) (r : Rule) : Bool :=
+/-- The model after `MigrateTrustDomain`. -/
+def migratedModel (o : BuildOpts) (pns : Str) (r : Rule) (m : Model) : Model :=
+  migrateTrustDomain o.bundle (nBasePrincipals pns r) m
+
+def ruleInScope (o : BuildOpts) (req : Request) (pns : Str) (r : Rule) : Bool :=
   match newModel pns r with
   | none => true
-  | some m => (m.permissions ++ m.principals).all fun rl => rl.all (mruleInScope req)
+  | some m =>
+    ((migratedModel o pns r m).permissions ++ (migratedModel o pns r m).principals).all
+      fun rl => rl.all (mruleInScope req)
 
 /-- Every (attribute, value) pair of the policies lies in the scope for which the value -> matcher
     translation is proved exact. -/
-def inScope (req : Request) (ps : List Policy) : Bool := ps.all fun p => p.rules.all (ruleInScope req p.ns)
+def inScope (o : BuildOpts) (req : Request) (ps : List Policy) : Bool :=
+  ps.all fun p => p.rules.all (ruleInScope o req p.ns)
 
 /-- Trust-domain migration changes nothing for this rule, in the compiler and in the semantics. -/
 def migrationNoopB (o : BuildOpts) (pns : Str) (r : Rule) : Bool :=
@@ -92,10 +99,31 @@ def migrationNoopB (o : BuildOpts) (pns : Str) (r : Rule) : Bool :=
    | some m => migrateTrustDomain o.bundle (nBasePrincipals pns r) m == m) &&
   expandRule o.bundle r == r
 
+/-- The trust-domain part of a five-part principal value is `*` or contains no `*`
+    (`td*/ns/..`-style values are outside the statement's reading of aliases). -/
+def plainTD (v : Str) : Bool :=
+  match splitOn '/' v with
+  | [td, _, _, _, _] => td == star || !td.contains '*'
+  | _ => true
+
+/-- The bundle: non-empty, entries without `*` and without '/'. -/
+def bundleOK (b : List Str) : Bool := !b.isEmpty && b.all fun t => !t.contains '*' && !t.contains '/'
+
+/-- Every `principals`-style value of the rule (in `from` entries and in `when source.principal`)
+    has a plain trust-domain part (`*` or wildcard-free). -/
+def rulePlain (r : Rule) : Bool :=
+  r.froms.all (fun s => (s.principals ++ s.notPrincipals).all plainTD) &&
+  r.whens.all (fun c => c.key != attrSrcPrincipal || (c.values ++ c.notValues).all plainTD)
+
+/-- Trust-domain migration is covered: either it changes nothing, or bundle and values are plain
+    (`migration_sem`). -/
+def migrationOKB (o : BuildOpts) (pns : Str) (r : Rule) : Bool :=
+  migrationNoopB o pns r || (bundleOK o.bundle && rulePlain r)
+
 def ruleTranslatedB (o : BuildOpts) (pns : Str) (r : Rule) : Bool :=
   match newModel pns r with
   | none => true
-  | some m => modelTranslated o.forTCP o.useAuth m
+  | some m => modelTranslated o.forTCP o.useAuth (migratedModel o pns r m)
 
 def entriesDistinctB (o : BuildOpts) (ps : List Policy) : Bool :=
   [true, false].all fun allow =>
@@ -103,7 +131,7 @@ def entriesDistinctB (o : BuildOpts) (ps : List Policy) : Bool :=
 
 /-- All hypotheses of the main theorems as one computable check on (options, policies, request). -/
 def hypsB (o : BuildOpts) (ps : List Policy) (req : Request) : Bool :=
-  (ps.all fun p => p.rules.all fun r => migrationNoopB o p.ns r && ruleInScope req p.ns r) &&
+  (ps.all fun p => p.rules.all fun r => migrationOKB o p.ns r && ruleInScope o req p.ns r) &&
   req.peerOK && entriesDistinctB o ps
 
 def translatableB (o : BuildOpts) (ps : List Policy) : Bool :=
